@@ -25,18 +25,19 @@ Funcs == << Fn("idb", <<P("Both", TBytes)>>, <<>>, TBytes), Fn("idi", <<P("Both"
             Fn("both", <<P("Field", TBool), P("Field", TBool)>>, <<>>, TBool),
             Fn("concat", <<>>, <<>>, TBytes), Fn("ctxfn", <<>>, <<>>, TInt) >>
 Sch == [fields |-> <<Fld("i", TInt), Fld("s", TBytes), Fld("b1", TBool), Fld("ai", AI), Fld("abytes", ABY), Fld("mbytes", TMap(TBytes)), Fld("vb", AB), Fld("ai2", AI)>>,
-        funcs |-> Funcs, lists |-> <<>>, nne |-> TRUE]
+        funcs |-> Funcs, lists |-> <<TInt>>, listkinds |-> <<"set">>, nne |-> TRUE]
 I(n) == VInt(IntOfNat(n))
 B(s) == VBytes(s)
+L1 == <<[kind |-> "set", sets |-> <<[name |-> <<108, 49>>, vals |-> <<I(1)>>]>>]>>
 Ctxs == << [sch |-> 1, vals |-> <<I(1), B(<<97>>), VBool(TRUE), VArr(TInt, <<I(1), I(2)>>), VArr(TBytes, <<B(<<97>>), B(<<>>), B(<<98, 99>>)>>),
                                    VMap(TBytes, <<[k |-> <<107>>, v |-> B(<<120>>)], [k |-> <<122>>, v |-> B(<<>>)]>>), VArr(TBool, <<VBool(FALSE), VBool(TRUE)>>),
-                                   VArr(TInt, <<I(9)>>)>>, lists |-> <<>>],
-            [sch |-> 1, vals |-> <<I(7), B(<<>>), VBool(FALSE), VArr(TInt, <<>>), VArr(TBytes, <<>>), VMap(TBytes, <<>>), VArr(TBool, <<>>), VArr(TInt, <<>>)>>, lists |-> <<>>],
-            [sch |-> 1, vals |-> <<Nil, Nil, Nil, Nil, Nil, Nil, Nil, Nil>>, lists |-> <<>>],
+                                   VArr(TInt, <<I(9)>>)>>, lists |-> L1],
+            [sch |-> 1, vals |-> <<I(7), B(<<>>), VBool(FALSE), VArr(TInt, <<>>), VArr(TBytes, <<>>), VMap(TBytes, <<>>), VArr(TBool, <<>>), VArr(TInt, <<>>)>>, lists |-> L1],
+            [sch |-> 1, vals |-> <<Nil, Nil, Nil, Nil, Nil, Nil, Nil, Nil>>, lists |-> L1],
             \* mixed presence: s, ai, mbytes absent; abytes, ai2 present
-            [sch |-> 1, vals |-> <<I(1), Nil, VBool(TRUE), Nil, VArr(TBytes, <<B(<<97>>)>>), Nil, Nil, VArr(TInt, <<I(5), I(6)>>)>>, lists |-> <<>>],
+            [sch |-> 1, vals |-> <<I(1), Nil, VBool(TRUE), Nil, VArr(TBytes, <<B(<<97>>)>>), Nil, Nil, VArr(TInt, <<I(5), I(6)>>)>>, lists |-> L1],
             \* the other way round
-            [sch |-> 1, vals |-> <<Nil, B(<<115>>), Nil, VArr(TInt, <<I(3)>>), Nil, VMap(TBytes, <<[k |-> <<107>>, v |-> B(<<121>>)]>>), Nil, Nil>>, lists |-> <<>>] >>
+            [sch |-> 1, vals |-> <<Nil, B(<<115>>), Nil, VArr(TInt, <<I(3)>>), Nil, VMap(TBytes, <<[k |-> <<107>>, v |-> B(<<121>>)]>>), Nil, Nil>>, lists |-> L1] >>
 Id(n) == [k |-> "id", name |-> n]
 LP == [k |-> "lp"]
 RP == [k |-> "rp"]
@@ -70,7 +71,8 @@ ArgShapes == << <<Id("s")>>,                                  \* 1  Bytes field
                 <<Id("vb")>>,                                \* 19 Array(Bool) field
                 <<LP, Id("ai")>> \o Each \o Eq1 \o <<RP>>,  \* 20 logical -> Array(Bool)
                 <<LitIp>>,                                   \* 21 Ip literal
-                <<Id("ai2")>> >>                             \* 22 another Array(Int) field
+                <<Id("ai2")>>,                               \* 22 another Array(Int) field
+                <<LP, Id("i"), [k |-> "in"], [k |-> "list", name |-> <<108, 49>>, valid |-> TRUE, txt |-> "$l1"], RP>> >>  \* 23 list comparison -> Bool
 NS == Len(ArgShapes)
 RECURSIVE Join(_)
 Join(args) == IF args = <<>> THEN <<>> ELSE IF Len(args) = 1 THEN ArgShapes[args[1]]
@@ -79,8 +81,8 @@ CallToks(f, args) == <<Id(Funcs[f].name), LP>> \o Join(args) \o <<RP>>
 Arities(f) == IF Funcs[f].name = "concat" THEN {2, 3} ELSE IF Funcs[f].name = "ctxfn" THEN {0, 1, 2}
               ELSE (Len(Funcs[f].params) - 1)..(Len(Funcs[f].params) + Len(Funcs[f].opts) + 1) \cap 0..3
 (* shapes used per position keep the product small but cover right / wrong kind, type, absence, map-each *)
-First == {1, 2, 3, 5, 6, 7, 8, 9, 10, 11, 13, 14, 15, 16, 18, 19, 20}
-Later == {1, 3, 5, 7, 8, 10, 11, 12, 15, 17, 21}
+First == {1, 2, 3, 5, 6, 7, 8, 9, 10, 11, 13, 14, 15, 16, 18, 19, 20, 23}
+Later == {1, 3, 5, 7, 8, 10, 11, 12, 15, 17, 21, 23}
 (* concat additionally takes whole arrays in every position *)
 FirstFor(f) == IF Funcs[f].name = "concat" THEN First \cup {22} ELSE First
 LaterFor(f) == IF Funcs[f].name = "concat" THEN Later \cup {14, 22} ELSE Later
